@@ -100,8 +100,6 @@ structure LeafOk (D : SpecDesign) (cur' : Env) (l : Leaf) : Prop where
   prog : Prog.listOk D.ctx l.prog = true
   /-- targets are assignable and no slice/part-select operand addresses one signal bit twice (finding F9) -/
   tgt : ∀ e ∈ Prog.listTargets l.prog, e.twf D.ctx = true ∧ e.noAlias D.ctx cur'
-  /-- operand bits of part-selects are positionally driven too (see `Spec/DrivenPart.lean`) -/
-  parts : PartsReached D.ctx l.prog
   /-- the controls of the inserters are well-formed expressions -/
   ctl : ∀ w ∈ l.wrappers, w.ctlWf D.ctx = true
 
@@ -272,7 +270,7 @@ theorem leaf_inv :
   have hd0 : DynInv D.ctx cur' (progMask D.ctx l.prog) (lowerList D.ctx l.prog) (progStep D.ctx l.prog cur' cur') :=
     ⟨x2, by rw [x1]; exact x2, fun i b _ _ _ => by rw [x1]⟩
   obtain ⟨e1, e2, e3⟩ := wrap_fold D l.prog cur' hok hC hI (progMask D.ctx l.prog) (stmtSigs (lowerList D.ctx l.prog))
-    (fun i b hi hb => progMask_drives D.ctx l.prog htw hl.parts i b hi hb)
+    (fun i b hi hb => progMask_drives D.ctx l.prog htw i b)
     (fun i b hm => mask_bit_sig D.ctx (lowerList D.ctx l.prog) i b hm)
     l.wrappers hl.ctl l.dom (lowerList D.ctx l.prog) (progStep D.ctx l.prog cur' cur') hs0 hd0
   refine ⟨?_, e2, ?_⟩
@@ -304,12 +302,12 @@ theorem leaf_edge_refines (rst : Option Int) (acc : Env) (hA : EnvN D.ctx acc) :
   obtain ⟨m1, m2⟩ := mergeDriven_spec D.ctx hwf l.prog (fun _ => true) _ acc
   apply env_ext c1 m1
   intro i b hi hb
-  rw [c2 i b hi hb, m2 i b hi hb, hs.mask, progMask_drives D.ctx l.prog htw hl.parts i b hi hb]
+  rw [c2 i b hi hb, m2 i b hi hb, hs.mask, progMask_drives D.ctx l.prog htw i b]
   cases hdr : progDrives D.ctx l.prog i b with
   | false => simp
   | true =>
     have hm : ibit ((progMask D.ctx l.prog).get i) b = true := by
-      rw [progMask_drives D.ctx l.prog htw hl.parts i b hi hb]; exact hdr
+      rw [progMask_drives D.ctx l.prog htw i b]; exact hdr
     simp only [Bool.and_true, if_true]
     rw [n2 i b hi hb, hs.sigs i, mask_bit_sig D.ctx _ i b hm, hd.bits i b hi hb hm]
     by_cases hr : rst.getD 0 % 2 = 1
@@ -331,12 +329,12 @@ theorem leaf_arst_refines (acc : Env) (hA : EnvN D.ctx acc) :
   obtain ⟨m1, m2⟩ := mergeDriven_spec D.ctx hwf l.prog (fun i => !(D.resetLess.getD i false)) D.inits acc
   apply env_ext a1 m1
   intro i b hi hb
-  rw [a2 i b hi hb, m2 i b hi hb, hs.mask, hs.sigs i, progMask_drives D.ctx l.prog htw hl.parts i b hi hb]
+  rw [a2 i b hi hb, m2 i b hi hb, hs.mask, hs.sigs i, progMask_drives D.ctx l.prog htw i b]
   cases hdr : progDrives D.ctx l.prog i b with
   | false => simp
   | true =>
     have hm : ibit ((progMask D.ctx l.prog).get i) b = true := by
-      rw [progMask_drives D.ctx l.prog htw hl.parts i b hi hb]; exact hdr
+      rw [progMask_drives D.ctx l.prog htw i b]; exact hdr
     rw [mask_bit_sig D.ctx _ i b hm]
     simp
 
